@@ -23,7 +23,7 @@ RULE = (("cases = scripts s1;...;sn: (1) the full predecessor x successor matrix
         "followers are scattered after their head, unsupported statements from %d families inserted at random gaps; (3) 2..5 "
         "regression-corpus scripts concatenated in random order. Non-trivial = the script has >= 2 supported groups; distinct = "
         "distinct script text."
-        " Added after seeded defects: the same table name produced twice with ALTER/INDEX in between, the very same statement text repeated, statements the lexer rejects (known finding unless anything but that exception happens), unterminated ignored lines, stray-semicolon statements, ALTER/INDEX statements after the later of two definitions of a name, statements commented out by a block comment whose closing line continues after '*/'.") % (len(G.SUPPORTED), len(G.UNSUPPORTED)))
+        " Added after seeded defects: the same table name produced twice with ALTER/INDEX in between, the very same statement text repeated, statements the lexer rejects (known finding unless anything but that exception happens), unterminated ignored lines, stray-semicolon statements, ALTER/INDEX statements after the later of two definitions of a name, statements commented out by a block comment whose closing line continues after '*/'.") % (len(G.SUPPORTED), len(G.UNSUPPORTED) + 1))
 ASSUMPTIONS = ["every statement ends with ';' at the end of a line (the property's premise)",
                "corpus scripts are used as whole units; concatenations in which two scripts define the same table are skipped",
                "GO / USE / INSERT / GRANT / DELETE lines are the documented ignored-line family (skipped in both modes)"]
@@ -176,7 +176,7 @@ def run_shard(ctx):
         STATE.unattached.append("contract statement_buffer: %r" % (e,))
     rng = ctx.rng
     kinds = sorted(G.SUPPORTED)
-    uns = G.all_unsupported()
+    uns = G.all_unsupported() + [("commented_out", u) for u in G.COMMENTED_OUT]
     # (1) predecessor x successor matrix
     i = 0
     for k1, k2 in itertools.product(kinds, kinds):
